@@ -239,7 +239,7 @@ def run(ctx):
     if not os.path.exists(model_exe):
         return
     quick = ctx.tier == "quick"
-    n_schemas, n_cases = (2, 40) if quick else (10, 160)
+    n_schemas, n_cases = (3, 60) if quick else (24, 250)
     schemas = [G.gen_schema(ctx.rng, f"ap{si}", n_entities=ctx.rng.randint(3, 6), cover_all_kinds=(si == 0),
                             p_optional=0.4, with_complex=True) for si in range(n_schemas)]
     t0 = time.time()
